@@ -14,7 +14,7 @@ RULE = ('a scripted RNG replays chosen word streams and records what is consumed
         'unbiasedness by counting: for 8-bit types all 256 range sizes, for 16-bit types ~25-60 range sizes, for the 24-bit type a few '
         '(thorough) are enumerated over ALL first words of the type; the number of accepted first words per value must be equal and '
         'nothing may fall outside. (iii) Standard / try_fill_slice / sub-slices: output bytes must equal the served bytes in order, '
-        'exactly len*BYTES consumed, neighbours untouched. Non-trivial: a first word was rejected, the range is full / a power of two '
+        'exactly len*BYTES consumed, neighbours untouched; one slice of more than 2^32 bits (> 512 MiB, verified inside the driver). Non-trivial: a first word was rejected, the range is full / a power of two '
         '+-1 / spans zero, histograms, slice fills of length != 1; distinct = distinct request lines')
 ASSUMPTIONS = ['unbiasedness is decided by exact preimage counting only on 8/16/24-bit instantiations; wider types get range membership, '
                'byte-exact Standard/Fill checks and agreement across digit types (C16)']
@@ -37,8 +37,8 @@ def budget(cfg, tier):
 
 
 def mode_filter(cfg, group, mode):
-    # 24-bit histograms (2^24 draws each) only in the release build
-    return not (group == 'hist' and cfg.bits == 24 and mode != 'rel')
+    # 24-bit histograms (2^24 draws each) and the > 512 MiB slice fill only in the release build
+    return not ((group == 'hist' and cfg.bits == 24 and mode != 'rel') or (group == 'bigfill' and mode != 'rel'))
 
 
 def encode(cfg, group, args):
@@ -48,6 +48,8 @@ def encode(cfg, group, args):
         return [cfg.hex(args[0]), cfg.hex(args[1]), 'd%d' % args[2]]
     if group == 'std':
         return ['s' + bytes(args[0]).hex()]
+    if group == 'bigfill':
+        return ['d%d' % args[0]]
     return ['s' + bytes(args[0]).hex(), 'd%d' % args[1]]
 
 
@@ -58,6 +60,8 @@ def decode(cfg, group, toks):
         return (cfg.val(int(toks[0][1:], 16)), cfg.val(int(toks[1][1:], 16)), int(toks[2][1:]))
     if group == 'std':
         return (bytes.fromhex(toks[0][1:]),)
+    if group == 'bigfill':
+        return (int(toks[0][1:]),)
     return (bytes.fromhex(toks[0][1:]), int(toks[1][1:]))
 
 
@@ -149,6 +153,9 @@ def requests(cfg, rng, n, tier, part, nparts, st):
     B = cfg.bytes
     for _ in range(max(5, m // 2)):
         yield 'std', (bytes(rng.getrandbits(8) for _ in range(2 * B)) if rng.random() < 0.8 else rng.choice((b'\x00', b'\xff', b'\x80', b'\x01')) * (2 * B),)
+    if cfg.name in ('u64x128', 'i8x260') and part == 0:
+        # one slice of more than 2^32 bits (512 MiB + a little): length arithmetic in 32 bits would wrap
+        yield 'bigfill', ((1 << 29) + 4096 * rng.randrange(1, 9),)
     for _ in range(max(5, m // 2)):
         L = rng.choice((0, 1, 2, 3, 7, 8, 64 if B <= 64 else 3))
         yield 'fill', (bytes(rng.getrandbits(8) for _ in range(L * B)), L)
@@ -228,6 +235,12 @@ def model(cfg, ctx, group, args):
         exp['standard_twice'] = (cfg.val(v), cfg.val(v2), 2 * B)
         cls.add('Standard: value is the little-endian integer of the served bytes')
         return exp, cls
+    if group == 'bigfill':
+        (total,) = args
+        L = -(-total // B)
+        exp['try_fill_slice_big'] = (True, L, (L * B, L))
+        cls.add('slice fill of more than 2^32 bits')
+        return exp, cls
     words, L = args
     want = words[:L * B]
     for k in ('try_fill_slice', 'gen_each', 'try_fill_subslice'):
@@ -239,7 +252,7 @@ def model(cfg, ctx, group, args):
 REQUIRED = ['full range (range size wraps to zero)', 'range size a power of two', 'range size 2^k +- 1', 'range of a single value',
             'signed range spanning zero', 'range touching MIN or MAX', 'preimage histogram over all first words (8-bit)',
             'preimage histogram over all first words (16-bit)', 'histogram: full range',
-            'Standard: value is the little-endian integer of the served bytes', 'slice fill of length 0', 'slice fill of length 1', 'slice fill of length >= 2']
+            'Standard: value is the little-endian integer of the served bytes', 'slice fill of length 0', 'slice fill of length 1', 'slice fill of length >= 2', 'slice fill of more than 2^32 bits']
 
 
 def floors(st, tier):
